@@ -734,6 +734,10 @@ def bl3(ctx, R):
                 R.ok(key, where, "single-byte fields only")
             elif lit is not None and lit[:1] in ("<", ">") and _guarded_by_byte_order(prog, flow, fi, call, lit[0]):
                 R.ok(key, where, "constant %r format selected by a test of the byte order" % lit[0])
+            elif lit is not None and lit.startswith("<") and len(call.args) > 1 and isinstance(call.args[1], ast.Attribute) and call.args[1].attr == "bytes":
+                # the buffer is the serialised form of a value of this library (<x>.bytes), which is little-endian by construction
+                # (writer side, (f)): not bytes of a file segment
+                R.ok(key, where, "decodes the library's own little-endian serialisation (`%s`), not file bytes" % unparse(call.args[1]))
             else:
                 R.violation(key, where, "fixed byte order: format %r does not depend on the segment's endianness" % (lit or unparse(call.args[0])))
             continue
@@ -865,6 +869,13 @@ def bl3(ctx, R):
     # data reader constructors receive a derived endianness (third constructor parameter)
     gdr = prog.func("tdms_segment.TdmsSegment._get_data_reader")
     base = prog.cls("base_segment.BaseDataReader")
+    # the readers are constructed in that method, or in a private method it delegates to (e.g. behind a memo)
+    from .region import region as _region_
+    for g_ in _region_(ctx, gdr, depth=2):
+        if g_.cls is gdr.cls and sum(1 for c_ in walk_body(g_.node) if isinstance(c_, ast.Call) and isinstance(c_.func, (ast.Name, ast.Attribute))
+                                     and prog.resolve_class(g_.module, c_.func) is not None and prog.is_subclass(prog.resolve_class(g_.module, c_.func), base)) >= 3:
+            gdr = g_
+            break
     ctor_sites = []       # (call, class)
     for c in walk_body(gdr.node):
         if not isinstance(c, ast.Call):
@@ -971,6 +982,50 @@ def bl3(ctx, R):
                 lit = body if pre is None and isinstance(body, str) else None
                 pre_lit = pre.value if isinstance(pre, ast.Constant) else None
                 good = (lit is not None and lit.startswith("<")) or pre_lit == "<"
+                if not good and lit is not None:
+                    # a big-endian pack that is selected by a byte-order parameter for which the package only ever passes '<'
+                    from .sym import Sym as _Sym2
+                    from .sem import calls_to as _ct2, call_arg as _ca2
+                    _e, guards_ = _Sym2(prog, fi, fi.cls, inline=False).env_at(nnode)
+                    sel = [g_[2][1] for g_ in guards_ if isinstance(g_, tuple) and len(g_) == 4 and g_[0] == "cmp" and g_[1] == "==" and g_[2][0] == "param"
+                           and g_[3] == ("const", lit[0])]
+                    if sel:
+                        vals = []
+                        wreach = cg.reachable([q_ for q_, f_ in prog.functions.items() if f_.module.name == "writer"])
+                        for g in prog.functions.values():
+                            if g.qual not in wreach:
+                                continue        # a caller the writer never reaches (a public helper of its own) is not the writer packing
+                            for cc in _ct2(prog, g, fi.qual, g.cls):
+                                sg = _Sym2(prog, g, g.cls, inline=False)
+                                e2, _gg = sg.env_at(cc)
+                                vals.append(_ca2(prog, cc, fi, sel[0], sg, e2))
+                        dflt = prog.try_fold(fi.defaults.get(sel[0]), fi.module, default=None) if sel[0] in fi.defaults else None
+                        if (vals or dflt == "<") and all(v_ == ("const", "<") or (v_ is None and dflt == "<") for v_ in vals):
+                            R.ok(key, fi.where(nnode), "selected by `%s == %r`, and every call site in the package passes '<'" % (sel[0], lit[0]))
+                            continue
+                if not good and isinstance(pre, ast.Name) and pre.id in fi.params:
+                    # the prefix is a parameter: what the writer's side passes for it decides (a public helper that can also pack the
+                    # other order is not the writer packing it)
+                    from .sem import calls_to as _ct, call_arg as _ca
+                    from .sym import Sym as _Sym
+                    vals = []
+                    for g in prog.functions.values():
+                        if g.module.name.startswith("test"):
+                            continue
+                        for cc in _ct(prog, g, fi.qual, g.cls):
+                            sg = _Sym(prog, g, g.cls, inline=False)
+                            e2, _gg = sg.env_at(cc)
+                            vals.append(_ca(prog, cc, fi, pre.id, sg, e2))
+                    dflt = prog.try_fold(fi.defaults.get(pre.id), fi.module, default=None) if pre.id in fi.defaults else None
+                    if vals and all(v_ == ("const", "<") or (v_ is None and dflt == "<") for v_ in vals):
+                        R.ok(key, fi.where(nnode), "every call site in the package passes '<' for `%s`" % pre.id)
+                        continue
+                    if not vals and dflt == "<":
+                        R.ok(key, fi.where(nnode), "`%s` defaults to '<' and nothing in the package passes another value" % pre.id)
+                        continue
+                    if not vals or any(v_ is not None and v_[0] != "const" for v_ in vals):
+                        R.unrecognised(key, fi.where(nnode), "the byte order prefix is the parameter `%s`; what the writer passes for it was not decided" % pre.id)
+                        continue
                 R.check(good, key, fi.where(nnode), "packs little-endian", "pack format is not explicitly little-endian while the writer never sets kTocBigEndian")
     wm = prog.module("writer")
     for nnode in ast.walk(wm.tree):
@@ -1022,6 +1077,26 @@ def _dtype_byte_order(prog, flow, fi, dt, depth=0):
         ok, why = flow.derived(fi, dt.args[0])
         return ("ok", "newbyteorder(%s): %s" % (unparse(dt.args[0]), why)) if ok else \
             ("violation", "newbyteorder argument `%s`: %s" % (unparse(dt.args[0]), why))
+    if isinstance(dt, ast.Call) and isinstance(dt.func, (ast.Name, ast.Attribute)) and not (isinstance(dt.func, ast.Attribute) and dt.func.attr == "newbyteorder"):
+        # a package helper that applies the byte order:  helper(nptype, endianness)  where every newbyteorder in it is
+        # <its parameter>.newbyteorder(<its parameter>) and it constructs no other dtype (a memoised newbyteorder)
+        from .flow import resolve_call as _rc
+        tg = [g for g, _k in _rc(prog, fi, fi.cls, dt)]
+        if len(tg) == 1 and tg[0].module.name in prog.modules:
+            g = tg[0]
+            nbo = [c for c in walk_body(g.node) if isinstance(c, ast.Call) and isinstance(c.func, ast.Attribute) and c.func.attr == "newbyteorder"]
+            other = [c for c in walk_body(g.node) if isinstance(c, ast.Call) and call_name(c) in ("np.dtype", "numpy.dtype")]
+            if nbo and not other and all(isinstance(c.func.value, ast.Name) and c.func.value.id in g.params and len(c.args) == 1
+                                         and isinstance(c.args[0], ast.Name) and c.args[0].id in g.params for c in nbo) \
+                    and len({c.args[0].id for c in nbo}) == 1:
+                ps = [p_ for p_ in g.params if p_ not in ("self", "cls")]
+                qn = nbo[0].args[0].id
+                i = ps.index(qn)
+                arg = dt.args[i] if len(dt.args) > i else next((k.value for k in dt.keywords if k.arg == qn), None)
+                if arg is None:
+                    return "undecided", "byte order argument of %s not found" % g.qual
+                ok, why = flow.derived(fi, arg)
+                return ("ok", "%s(.., %s): %s" % (g.name, unparse(arg), why)) if ok else ("violation", "byte order argument `%s` of %s: %s" % (unparse(arg), g.name, why))
     if isinstance(dt, ast.Name):
         if dt.id in fi.params:
             return "ok", "dtype is a parameter (checked at the call sites)"
@@ -1157,7 +1232,9 @@ def bl4(ctx, R):
                 if fmt is not None:
                     packs.append((c, fmt, args, env))
         if len(packs) != 1:
-            raise AnchorMissing("%s: one struct pack call" % q)
+            R.unrecognised("%s::layout" % q, fi.where(), "%d struct pack calls with a constant format in the function itself (the packing may live in a helper "
+                           "it delegates to): which value goes into which field was not recognised" % len(packs))
+            continue
         c, fmt, args, env = packs[0]
 
         def role_of(a):
@@ -1330,11 +1407,28 @@ def bl4(ctx, R):
             if is_store_base(fi, base):
                 n_assign += 1
                 # positional (whole-record) store: only allowed for converted datetime64 data
-                conv = isinstance(n.value, ast.Call) and isinstance(n.value.func, ast.Attribute) and n.value.func.attr == "as_datetime64"
-                R.check(conv, "channel_data.TimestampDataReceiver::store self.data[...]", fi.where(n),
-                        "stores converted datetime64 values",
-                        "raw timestamp records are copied positionally (`%s`): NumPy assigns structured arrays by field position, and "
-                        "big-endian chunks have the fields in the opposite order" % unparse(n))
+                def kind_of(v_, depth=0):
+                    """'converted' (as_datetime64 result) / 'records' (the chunk's records themselves, possibly cast or viewed) / None"""
+                    if isinstance(v_, ast.Call) and isinstance(v_.func, ast.Attribute) and v_.func.attr == "as_datetime64":
+                        return "converted"
+                    if isinstance(v_, ast.Call) and isinstance(v_.func, ast.Attribute) and v_.func.attr in ("astype", "view", "copy", "newbyteorder", "byteswap"):
+                        return kind_of(v_.func.value, depth + 1)
+                    if isinstance(v_, ast.Name):
+                        if v_.id in fi.params:
+                            return "records"
+                        binds = [x.value for x in walk_body(fi.node) if isinstance(x, ast.Assign) and any(isinstance(t_, ast.Name) and t_.id == v_.id for t_ in x.targets)]
+                        if len(binds) == 1 and depth < 4:
+                            return kind_of(binds[0], depth + 1)
+                    return None
+                k_ = kind_of(n.value)
+                key_ = "channel_data.TimestampDataReceiver::store self.data[...]"
+                if k_ == "converted":
+                    R.ok(key_, fi.where(n), "stores converted datetime64 values")
+                elif k_ == "records":
+                    R.violation(key_, fi.where(n), "raw timestamp records are copied positionally (`%s`): NumPy assigns structured arrays by field position, and "
+                                "big-endian chunks have the fields in the opposite order" % unparse(n))
+                else:
+                    R.unrecognised(key_, fi.where(n), "what is stored by `%s` is neither the converted values nor the chunk's records" % unparse(n)[:80])
             elif isinstance(base, ast.Subscript) and is_store_base(fi, base.value) and isinstance(base.slice, ast.Constant):
                 n_assign += 1
                 fld = base.slice.value
